@@ -4,12 +4,10 @@ import (
 	"fmt"
 	"os"
 	"path/filepath"
-	"regexp"
 	"sort"
 	"strings"
 )
 
-var reRaceFn = regexp.MustCompile(`^\s+([A-Za-z0-9_./\-]+(?:\.\(\*?[A-Za-z0-9_\[\],. *]+\))?[A-Za-z0-9_.\-\[\]]*)\(`)
 
 // CollectRaces parses the race detector logs written by workers of a Race check
 // (GORACE=log_path=<root>/replays/race-<ID>), de-duplicates reports by the pair of
@@ -32,11 +30,17 @@ func (d *Driver) CollectRaces() {
 			}
 			var d2fns, allfns []string
 			for _, ln := range strings.Split(blk, "\n") {
-				m := reRaceFn.FindStringSubmatch(ln)
-				if m == nil {
+				// function lines of a race report are indented "pkg/path.(*T).method(args)";
+				// file lines are indented deeper and contain ".go:"
+				t := strings.TrimSpace(ln)
+				if !strings.HasPrefix(ln, "  ") || strings.Contains(t, ".go:") || !strings.HasSuffix(t, ")") {
 					continue
 				}
-				fn := m[1]
+				i := strings.LastIndex(t, "(")
+				if i <= 0 || strings.ContainsAny(t[:i], " \t") {
+					continue
+				}
+				fn := t[:i]
 				allfns = append(allfns, fn)
 				if strings.HasPrefix(fn, "oss.terrastruct.com/d2/") {
 					d2fns = append(d2fns, strings.TrimPrefix(fn, "oss.terrastruct.com/d2/"))
